@@ -93,8 +93,22 @@ type Reply struct {
 	HasError bool   `json:"has_error"` // carries an rpc-error element
 }
 
+// ReplyOpt widens GenReply.
+type ReplyOpt struct {
+	// CR: tabs and carriage returns among the surrounding whitespace (not for payloads that pass
+	// through the channel in 1.1 framing: known finding cr-in-payload-1.1).
+	CR bool
+	// Big: now and then a text node of ~10 kB (five-digit chunk sizes).
+	Big bool
+}
+
 // GenReply draws an rpc-reply for message-id id. marker, if non-empty, is embedded in the body.
 func GenReply(t *rapid.T, id int, marker string, allowDecl bool) Reply {
+	return GenReplyOpt(t, id, marker, allowDecl, ReplyOpt{})
+}
+
+// GenReplyOpt is GenReply with options.
+func GenReplyOpt(t *rapid.T, id int, marker string, allowDecl bool, opt ReplyOpt) Reply {
 	var body strings.Builder
 
 	hasErr := false
@@ -130,19 +144,45 @@ func GenReply(t *rapid.T, id int, marker string, allowDecl bool) Reply {
 		body.WriteString(GenXMLElem(t, 3))
 	}
 
-	root := fmt.Sprintf(`<rpc-reply xmlns="%s" message-id="%d">%s</rpc-reply>`, BaseNS, id, body.String())
+	if opt.Big && rapid.IntRange(0, 29).Draw(t, "big") == 0 {
+		fmt.Fprintf(&body, "<pad>%s</pad>", strings.Repeat("0123456789abcdef", rapid.IntRange(620, 700).Draw(t, "padN")))
+	}
+
+	// further namespace declarations in front of the message-id: where in the message the id
+	// sits is not fixed
+	extra := ""
+	if rapid.IntRange(0, 3).Draw(t, "rootAttrs") == 0 {
+		for i := 0; i < rapid.IntRange(1, 9).Draw(t, "nRootAttrs"); i++ {
+			extra += fmt.Sprintf(` xmlns:m%d="urn:example:params:xml:ns:yang:module-%d"`, i, i)
+		}
+	}
+
+	root := fmt.Sprintf(`<rpc-reply xmlns="%s"%s message-id="%d">%s</rpc-reply>`, BaseNS, extra, id, body.String())
 	if hasErr && strings.Contains(root, "<nc:") {
-		root = fmt.Sprintf(`<nc:rpc-reply xmlns:nc="%s" message-id="%d">%s</nc:rpc-reply>`, BaseNS, id, body.String())
+		root = fmt.Sprintf(`<nc:rpc-reply xmlns:nc="%s"%s message-id="%d">%s</nc:rpc-reply>`, BaseNS, extra, id, body.String())
 	}
 
 	r := Reply{HasError: hasErr, Expected: root}
 
-	pre := ""
-	if allowDecl && rapid.Bool().Draw(t, "decl") {
-		pre = XMLDecl + rapid.SampledFrom([]string{"", "\n", "\n  "}).Draw(t, "declWs")
+	declWs := []string{"", "\n", "\n  "}
+	postWs := []string{"", "", "\n", " \n"}
+	leadWs := []string{"", "", "", "\n", " "}
+
+	if opt.CR {
+		declWs = append(declWs, "\r\n", "\t", "\r\n\t")
+		postWs = append(postWs, "\t\n", "\r\n", "\t")
+		leadWs = append(leadWs, "\t", "\r\n")
 	}
 
-	post := rapid.SampledFrom([]string{"", "", "\n", " \n"}).Draw(t, "postWs")
+	pre := ""
+	if allowDecl && rapid.Bool().Draw(t, "decl") {
+		pre = XMLDecl + rapid.SampledFrom(declWs).Draw(t, "declWs")
+	} else if opt.CR {
+		// white space in front of a root element that has no declaration
+		pre = rapid.SampledFrom(leadWs).Draw(t, "leadWs")
+	}
+
+	post := rapid.SampledFrom(postWs).Draw(t, "postWs")
 	r.Payload = pre + root + post
 
 	return r
